@@ -814,6 +814,10 @@ def corpus_phf(tier, seed):
     A([V('Red', aci=True, bare=True), V('Other', 'tuple', ['Cap'], default=True), V('Blue')])
     A([V('Red', ts='RED'), V('Blue', aci=True)], parse_err_ty='PErr', parse_err_fn='perr')
     A([V('GoneA', disabled=True), V('GoneB', disabled=True)])
+    # a case-sensitive all-lowercase / all-uppercase spelling next to a case-insensitive variant
+    A([V('Red', ser=['red']), V('Blue', ser=['blue'], aci=True), V('Top', ser=['TOP'])])
+    # overlapping spellings (outside C01's domain, but the plain twin is the oracle here: first declared wins in both)
+    A([V('Any', ser=['any'], aci=True), V('Upper', ser=['ANY']), V('Dup', ser=['any'])])
     if tier == 'quick':
         return out
     styles = [None, 'snake_case', 'SCREAMING_SNAKE_CASE', 'kebab-case', 'lowercase', 'UPPERCASE', 'camelCase']
